@@ -29,6 +29,10 @@ REPO = os.environ.get("ZIP_VERIF_REPO", "/repo")
 HARNESS_DIR = os.environ.get("ZIP_VERIF_HARNESS_SRC") or os.path.join(HERE, "harness")
 WORK = os.path.join(HERE, ".work")
 OUT = os.environ.get("ZIP_VERIF_OUT") or os.path.join(WORK, "out")
+# Target-dir slots are per source tree: kani-driver picks up harness artifacts of EVERY build of the
+# `zip` package it finds in a target dir, so a slot that was also used for another checkout (the
+# seeded-change worktrees) can hand back a stale goto binary of that other tree.
+SLOT_TAG = "" if REPO == "/repo" else "_" + hashlib.sha1(REPO.encode()).hexdigest()[:8]
 # developer overrides (seeded-change matrix): the registered commands never set these
 EVID = os.environ.get("ZIP_VERIF_EVID") or os.path.join(HERE, "evidence")
 REPLAYS = os.environ.get("ZIP_VERIF_REPLAYS") or os.path.join(HERE, "replays")
@@ -441,7 +445,7 @@ def classify(h, rc, timed_out, wall, json_out, log_path):
 def run_harness(h, pool, tier):
     slot = pool.get()
     try:
-        tdir = os.path.join(WORK, f"slot{slot}")
+        tdir = os.path.join(WORK, f"slot{slot}{SLOT_TAG}")
         os.makedirs(tdir, exist_ok=True)
         out_dir = OUT
         os.makedirs(out_dir, exist_ok=True)
@@ -506,7 +510,7 @@ def make_replay(prop, h, pool):
     """Re-run the failing harness with concrete playback; returns ([replay paths], note)."""
     slot = pool.get()
     try:
-        tdir = os.path.join(WORK, f"slot{slot}")
+        tdir = os.path.join(WORK, f"slot{slot}{SLOT_TAG}")
         out_dir = OUT
         log_path = os.path.join(out_dir, h["name"] + ".playback.log")
         cmd = kani_cmd(h, tdir, None, playback=True, unwindset=resolve_unwindset(h, tdir, log_path))
@@ -818,7 +822,7 @@ def warm(jobs):
     for feat, h in first.items():
         procs = []
         for s in range(SlotPool.NSLOTS):
-            tdir = os.path.join(WORK, f"slot{s}")
+            tdir = os.path.join(WORK, f"slot{s}{SLOT_TAG}")
             os.makedirs(tdir, exist_ok=True)
             cmd = kani_cmd(h, tdir, os.path.join(OUT, f"warm_{feat}_{s}.json"))
             i = cmd.index("--cbmc-args")
